@@ -42,6 +42,16 @@ type c09Schema struct {
 	// from outside: the second allocate answer returned after the change)
 	graceOld  int32
 	graceFrom int
+	// token buckets: every set of limits with the span of time during which
+	// admitting at that set is acceptable (from its configuration until the
+	// gateway has completed a reconcile round that began after the next change)
+	tbHist []*tbLimits
+}
+
+type tbLimits struct {
+	from, until    time.Duration // until < 0: still acceptable
+	gq, gb, lq, lb int32
+	closeFrom      int // allocReturned when the next change was made (-1: no next change yet)
 }
 
 type scriptState struct {
@@ -259,6 +269,11 @@ func RunC09(r *sim.Run) {
 		return v % n
 	}
 	net.AddNode("rl-0:8443", st)
+	for _, s := range schemas {
+		if s.tb {
+			s.tbHist = []*tbLimits{{from: 0, until: -1, gq: s.global, gb: s.gburst, lq: s.local, lb: s.lburst, closeFrom: -1}}
+		}
+	}
 
 	ctx, cancel := context.WithCancel(context.Background())
 	defer cancel()
@@ -389,7 +404,7 @@ func RunC09(r *sim.Run) {
 	}
 
 	nSteps := t.Range(20, 120)
-	lowered := 0
+	lowered, tbChanges := 0, 0
 	for step := 0; step < nSteps && !r.Violated(); step++ {
 		r.Step = step
 		switch t.Pick([]int{10, 8, 2, 1, 1, 2, 2}) {
@@ -426,18 +441,31 @@ func RunC09(r *sim.Run) {
 			r.Logf("partition=%v", cut)
 			r.Fault("partition")
 		case 5: // the limits of a max-in-flight schema change
-			var mifs []*c09Schema
-			for _, s := range schemas {
-				if !s.tb {
-					mifs = append(mifs, s)
-				}
-			}
-			if len(mifs) == 0 {
-				break
-			}
-			s := mifs[t.Draw(len(mifs))]
+			s := schemas[t.Draw(len(schemas))]
 			nl := int32(t.Range(1, 4))
 			ng := nl + int32(t.Range(0, 12))
+			if s.tb {
+				nl, ng = nl*5, ng*5
+				st.mu.Lock()
+				mu.Lock()
+				last := s.tbHist[len(s.tbHist)-1]
+				last.closeFrom = allocReturned
+				s.tbHist = append(s.tbHist, &tbLimits{from: now(), until: -1, gq: ng, gb: ng, lq: nl, lb: nl, closeFrom: -1})
+				s.local, s.global, s.lburst, s.gburst = nl, ng, nl, ng
+				tbChanges++
+				mu.Unlock()
+				st.mu.Unlock()
+				spec = *spec.DeepCopy()
+				for i := range spec.Schemas {
+					if spec.Schemas[i].Name == s.name {
+						spec.Schemas[i].TokenBucket = &proxyv1alpha1.TokenBucketFlowControlSchema{QPS: nl, Burst: nl}
+						spec.Schemas[i].GlobalTokenBucket = &proxyv1alpha1.TokenBucketFlowControlSchema{QPS: ng, Burst: ng}
+					}
+				}
+				lim.Sync(spec)
+				r.Logf("schema %s (token bucket) limits now local=%d global=%d", s.name, nl, ng)
+				break
+			}
 			st.mu.Lock()
 			mu.Lock()
 			if old := int32(globalBound(s)); ng < old {
@@ -469,6 +497,11 @@ func RunC09(r *sim.Run) {
 			// the second answer: the first one may belong to a reconcile round that
 			// began before the change (its request can wait in the client's own rate
 			// limiter), and the count strategy applies a changed limit when a round begins
+			for _, h := range s.tbHist {
+				if h.until < 0 && h.closeFrom >= 0 && allocReturned >= h.closeFrom+2 {
+					h.until = now()
+				}
+			}
 			if s.graceOld > 0 && allocReturned >= s.graceFrom+2 {
 				s.graceOld = 0
 				r.Probe("lowered_limit_enforced_after_next_answer")
@@ -492,16 +525,33 @@ func RunC09(r *sim.Run) {
 				}
 			}
 			sort.Slice(ts, func(i, j int) bool { return ts[i] < ts[j] })
-			qps, burst := s.global, s.gburst
-			if via == "local" {
-				qps, burst = s.local, s.lburst
-			}
 			r.Checked("token_bucket_rate_bound")
 			// a reconfiguration (new quota) swaps in a fresh bucket: allow one extra burst per second of window
 			for i := 0; i < len(ts); i++ {
 				for j := i; j < len(ts); j++ {
 					T := (ts[j] - ts[i]).Seconds()
-					bound := float64(burst)*(1+math.Floor(T/2)+1) + float64(qps)*T + 1e-6
+					// the loosest limits acceptable at some moment of the window, one more burst per change in it
+					var qps, burst int32
+					extra := 0
+					for _, h := range s.tbHist {
+						if h.from > ts[j] || (h.until >= 0 && h.until < ts[i]) {
+							continue
+						}
+						q, b := h.gq, h.gb
+						if via == "local" {
+							q, b = h.lq, h.lb
+						}
+						if q > qps {
+							qps = q
+						}
+						if b > burst {
+							burst = b
+						}
+						if h.from >= ts[i] {
+							extra++
+						}
+					}
+					bound := float64(burst)*(1+math.Floor(T/2)+1+float64(extra)) + float64(qps)*T + 1e-6
 					if float64(j-i+1) > bound {
 						r.Violate("global_rate_exceeded", via+"/"+string(s.strategy), "schema %s (%s, qps %d burst %d via %s): %d admissions within %.3fs", s.name, s.strategy, qps, burst, via, j-i+1, T)
 						return
@@ -557,6 +607,7 @@ func RunC09(r *sim.Run) {
 	st.mu.Unlock()
 	r.ProbeN("requests", reqN)
 	r.ProbeN("global_limit_lowered", lowered)
+	r.ProbeN("token_bucket_limits_changed", tbChanges)
 	var sample []string
 	for _, s := range schemas {
 		sample = append(sample, fmt.Sprintf("%s tb=%v %s local=%d global=%d maxInflightSeen(remote)=%d (local)=%d", s.name, s.tb, s.strategy, s.local, s.global, maxSeen[s.name+"|remote"], maxSeen[s.name+"|local"]))
